@@ -73,12 +73,20 @@ class _DBOSIdleReleaseInternalRunAdapter(BaseInternalRunAdapterDecorator):
         self._store = store
 
     @override
+    async def send_event(self, tick: WorkflowTick) -> None:
+        # an event a step sends to its own run sits in the mailbox until received
+        self._runtime._note_mailbox_in(self.run_id)
+        await super().send_event(tick)
+
+    @override
     async def wait_receive(
         self,
         timeout_seconds: float | None = None,
     ) -> WaitResult:
         result = await super().wait_receive(timeout_seconds)
         if isinstance(result, WaitResultTick):
+            if not isinstance(result.tick, TickIdleRelease):
+                self._runtime._note_mailbox_out(self.run_id, result.tick)
             self._runtime._cancel_deferred_release(self.run_id)
         return result
 
@@ -88,6 +96,7 @@ class _DBOSIdleReleaseInternalRunAdapter(BaseInternalRunAdapterDecorator):
             # The pull task may have received this tick before the idle event
             # that armed the timer was published; the run is busy either way.
             self._runtime._cancel_deferred_release(self.run_id)
+        self._runtime._note_processed(self.run_id, tick)
         await super().on_tick(tick)
 
     @override
@@ -135,6 +144,9 @@ class DBOSIdleReleaseExternalRunAdapter(BaseExternalRunAdapterDecorator):
                 resuming = self._runtime._resumes_in_progress.get(self.run_id)
                 if resuming is not None:
                     await asyncio.shield(resuming)
+                # The control loop only cancels the idle timer when it receives
+                # the tick; until then the mailbox count keeps the run loaded.
+                self._runtime._note_mailbox_in(self.run_id)
                 await self._decorated.send_event(tick)
                 return
             if result == RunLifecycleState.released:
@@ -185,6 +197,11 @@ class DBOSIdleReleaseDecorator(BaseRuntimeDecorator):
             raise ValueError("lifecycle_lock is required")
         self._lifecycle_lock_factory = lifecycle_lock
         self._lifecycle_lock_instance: RunLifecycleLock | None = None
+        # run_id -> ticks this process put into / the control loop took out of the
+        # run's mailbox; a run with undelivered input is not released
+        self._mailbox_in: dict[str, int] = {}
+        self._mailbox_out: dict[str, int] = {}
+        self._received_unprocessed: dict[str, list[WorkflowTick]] = {}
         # run_id -> future resolved when the resume claimed in this process is done
         self._resumes_in_progress: dict[str, asyncio.Future[None]] = {}
         # run_id -> task writing the run's initial 'active' lifecycle row
@@ -257,6 +274,21 @@ class DBOSIdleReleaseDecorator(BaseRuntimeDecorator):
                 f"Failed to create lifecycle row for run_id={run_id}", exc_info=True
             )
 
+    def _note_mailbox_in(self, run_id: str) -> None:
+        self._mailbox_in[run_id] = self._mailbox_in.get(run_id, 0) + 1
+
+    def _note_mailbox_out(self, run_id: str, tick: WorkflowTick) -> None:
+        self._mailbox_out[run_id] = self._mailbox_out.get(run_id, 0) + 1
+        # received by the pull task, possibly long before the loop gets to it
+        self._received_unprocessed.setdefault(run_id, []).append(tick)
+
+    def _note_processed(self, run_id: str, tick: WorkflowTick) -> None:
+        waiting = self._received_unprocessed.get(run_id)
+        if waiting:
+            waiting[:] = [t for t in waiting if t is not tick]
+            if not waiting:
+                del self._received_unprocessed[run_id]
+
     def _schedule_deferred_release(self, run_id: str) -> None:
         """Cancel any existing timer for run_id and schedule a new one."""
         self._cancel_deferred_release(run_id)
@@ -286,6 +318,13 @@ class DBOSIdleReleaseDecorator(BaseRuntimeDecorator):
 
     async def _release_idle_handler(self, run_id: str) -> None:
         """Release an idle handler by sending TickIdleRelease."""
+        if self._mailbox_in.get(run_id, 0) > self._mailbox_out.get(
+            run_id, 0
+        ) or self._received_unprocessed.get(run_id):
+            # input forwarded to the run has not been received yet, or was
+            # received by the pull task and not processed yet (the loop may be
+            # busy between two receives): it is not idle
+            return
         registration = self._lifecycle_registrations.pop(run_id, None)
         if registration is not None:
             await registration
@@ -349,6 +388,9 @@ class DBOSIdleReleaseDecorator(BaseRuntimeDecorator):
         Returns (run_id, external_adapter).
         """
         self._cancel_deferred_release(run_id)
+        self._mailbox_in.pop(run_id, None)
+        self._mailbox_out.pop(run_id, None)
+        self._received_unprocessed.pop(run_id, None)
 
         # Wait for old DBOS workflow to finish (cross-replica safe)
         try:
